@@ -298,6 +298,127 @@ pub fn run(tier: &str, seed: u64) -> Report {
       }
     }
   }
+  registry_cases(&mut report, &mut batch);
   batch.finish(&mut report, "C20");
   report
+}
+
+/// registry (JSR) modules: content arrives either with the module load or, when the version
+/// manifest embeds module information and the file is not cached, through the deferred content load
+fn registry_cases(report: &mut Report, batch: &mut Batch) {
+  use crate::registry::*;
+  let code = b"export const v = 1;\n".to_vec();
+  let mut with_bom = vec![0xEF, 0xBB, 0xBF];
+  with_bom.extend(&code);
+  let mut non_ascii = "// caf\u{e9} \u{1F600}\n".as_bytes().to_vec();
+  non_ascii.extend(&code);
+  let mut bom_non_ascii = vec![0xEF, 0xBB, 0xBF];
+  bom_non_ascii.extend(&non_ascii);
+  let mut invalid = code.clone();
+  invalid.extend(b"// \xff\xfe\n");
+  let mut utf16_bom = vec![0xFF, 0xFE];
+  utf16_bom.extend(&code);
+  let js_cases: Vec<Vec<u8>> = vec![code.clone(), with_bom, non_ascii, bom_non_ascii, invalid, utf16_bom, vec![], vec![0xEF, 0xBB, 0xBF]];
+  let json_cases: Vec<Vec<u8>> = vec![b"{\"k\": 1}".to_vec(), [vec![0xEF, 0xBB, 0xBF], b"{\"k\": 1}".to_vec()].concat(), b"{\"k\": \"\xff\"}".to_vec(), b"{\"k\": \"\xc3\xa9\"}".to_vec()];
+  for (ji, jb) in js_cases.iter().enumerate() {
+    for (di, db) in json_cases.iter().enumerate() {
+      if ji % json_cases.len() != di && ji != 1 {
+        continue;
+      }
+      for mg in [MgKind::None, MgKind::V2, MgKind::V1] {
+        for content_cached in [false, true] {
+          let ver = RegVer {
+            version: "1.0.0".into(),
+            yanked: false,
+            created_day: None,
+            exports: ExportsDesc::Obj(vec![(".".into(), Some("./mod.ts".into())), ("./data".into(), Some("./data.json".into()))]),
+            files: vec![
+              RegFile { path: "/mod.ts".into(), items: vec![], raw: Some(jb.clone()), manifest: ManifestEntry::Ok, fault: Fault::None, tampered_cache: false },
+              RegFile { path: "/data.json".into(), items: vec![], raw: Some(db.clone()), manifest: ManifestEntry::Ok, fault: Fault::None, tampered_cache: false },
+            ],
+            mg,
+            fault: Fault::None,
+            lockfile_checksum: None,
+          };
+          let mut cached = std::collections::BTreeSet::new();
+          if content_cached {
+            cached.insert(file_url("@s/a", "1.0.0", "/mod.ts"));
+            cached.insert(file_url("@s/a", "1.0.0", "/data.json"));
+          }
+          let w = RegWorld {
+            pkgs: vec![RegPkg { name: "@s/a".into(), versions: vec![ver], fault: Fault::None, stale: None }],
+            user: vec![UserFile {
+              url: "file:///main.ts".into(),
+              items: vec![
+                crate::world::Item { form: crate::world::Form::Namespace, text: "jsr:@s/a@1".into() },
+                crate::world::Item { form: crate::world::Form::With("json".into()), text: "jsr:@s/a@1/data".into() },
+              ],
+            }],
+            roots: vec!["file:///main.ts".into()],
+            kind: GraphKind::All,
+            prefer_cached: false,
+            passthrough: false,
+            skip_dynamic_deps: false,
+            cutoff_day: None,
+            excl: vec![],
+            excl_prefixes: vec![],
+            cached,
+            has_locker: false,
+            lock_manifests: vec![],
+          };
+          let loader = RegLoader::new(&w);
+          let Ok(b) = build_reg(&w, &loader) else {
+            report.fail("oracle", "registry-build-failed", "registry build failed".into(), w.describe());
+            continue;
+          };
+          for (path, bytes) in [("/mod.ts", jb), ("/data.json", db)] {
+            let spec = ModuleSpecifier::parse(&file_url("@s/a", "1.0.0", path)).unwrap();
+            report.evaluations += 1;
+            let desc = json!({"registry": true, "path": path, "mg": format!("{:?}", mg), "content_cached": content_cached, "bytes": hex(bytes)});
+            let req = format!("(decode utf8 0 (bytes {}) -)", bytes.iter().map(|b| b.to_string()).collect::<Vec<_>>().join(" "));
+            let exp = expected_text(None, false, bytes);
+            let obs = match b.graph.try_get(&spec) {
+              Ok(Some(Module::Json(j))) => Some((j.source.text.as_bytes().to_vec(), j.source.try_get_original_bytes().map(|b| b.to_vec()), j.size())),
+              Ok(Some(Module::Js(j))) => Some((j.source.text.as_bytes().to_vec(), j.source.try_get_original_bytes().map(|b| b.to_vec()), j.size())),
+              Ok(_) => None,
+              Err(e) => {
+                if matches!(classify_err(e), Obs::DecodeError) {
+                  batch.push(req.clone(), "err".into(), false);
+                  if exp.is_some() {
+                    report.fail("oracle", "decodable-became-error", "decode error although the bytes decode".into(), desc.clone());
+                  }
+                  report.nontrivial.insert(format!("registry/{}/{:?}/{}/err", path, mg, content_cached));
+                }
+                None
+              }
+            };
+            if let Some((text, orig, size)) = obs {
+              let kind = match &orig {
+                None => "changed",
+                Some(o) if *o == text => "unchanged",
+                Some(_) => "bom",
+              };
+              batch.push(req, format!("{} text={} orig={} size={}", kind, hex(&text), orig.as_ref().map(|o| hex(o)).unwrap_or("-".into()), text.len()), false);
+              if let Some(o) = &orig {
+                if o != bytes {
+                  report.fail("oracle", "original-bytes-differ", format!("registry module: try_get_original_bytes = {} but the loader supplied {}", hex(o), hex(bytes)), desc.clone());
+                }
+              }
+              if size != text.len() {
+                report.fail("oracle", "size-mismatch", format!("size {} text bytes {}", size, text.len()), desc.clone());
+              }
+              match &exp {
+                Some(e) if e.as_bytes() == &text[..] => {}
+                Some(e) => report.fail("oracle", "text-is-not-the-decoding", format!("registry module: text {} expected {}", hex(&text), hex(e.as_bytes())), desc.clone()),
+                None => {}
+              }
+              report.count(&format!("registry-outcome:{}", kind));
+              report.nontrivial.insert(format!("registry/{}/{:?}/{}/{}", path, mg, content_cached, kind));
+            }
+          }
+        }
+      }
+    }
+  }
+  report.exhaustive.push("registry modules: 8 JS byte strings x 4 JSON byte strings (paired) x embedded module info none/v2/v1 x content cached or not".into());
 }
